@@ -23,7 +23,7 @@ TRUST = {
     'A4': 'A4 approx scalar comparisons: reflexivity and the 1e-6 separation facts assumed in model R',
     'A5': 'A5 layout contracts of Index / AsRef assumed by Verus (proved by the C16 Kani harnesses)',
     'A6': 'A6 tools: rustc -Zunpretty=expanded, tools/extract.py + tools/rules.py (rule list in tools/RULES.md), Verus 0.2026.09.13 + Z3 (incl. smt.macro_finder preprocessing in pass B), Kani 0.68 + CBMC 6.11',
-    'U': 'model U: scalar operations are uninterpreted functions (nothing assumed but determinism)',
+    'U': 'model U (advisory units C01u, C03u, C12u, C17u): the scalar operations + - * / % and unary - are uninterpreted functions; a function that verifies there needs no arithmetic law at all, so its contract holds for every scalar type (floats with rounding, wrapping integers); functions that do not verify there are decided in model R only',
 }
 
 
@@ -66,7 +66,7 @@ def run_unit(u, tier):
     if u.poly_texts:
         passes.append('B')
     out = {'unit': u.name, 'model': u.model, 'path': path, 'passes': {}, 'failures': [], 'infra': [],
-           'functions': u.functions, 'assumed': u.assumed, 'trusted_prelude_items': n_pre, 'n_lemmas': len(u.lemma_texts), 'n_poly': len(u.poly_texts)}
+           'functions': u.functions, 'assumed': u.assumed, 'inlined_r18': sorted(set('%s <- %s' % x for x in (u.inliner.log if getattr(u, 'inliner', None) else []))), 'trusted_prelude_items': n_pre, 'n_lemmas': len(u.lemma_texts), 'n_poly': len(u.poly_texts)}
     with cf.ThreadPoolExecutor(max_workers=2) as ex:
         futs = {w: ex.submit(driver.run_verus, path, w, 8, getattr(u, 'verus_extra', {}).get(w, ())) for w in passes}
         for w, fu in futs.items():
@@ -86,6 +86,19 @@ def run_unit(u, tier):
     # subexpression) must not raise an alarm because the default linear mode cannot see through it.
     retry = [f for f in out['failures'] if f.get('pass') == 'A' and f.get('kind') == 'fn' and not f.get('canary')]
     out['escalated'] = []
+    if getattr(u, 'advisory', False):
+        # model U: a function that does not verify without arithmetic laws is simply not claimed here (model R decides it)
+        out['advisory'] = True
+        out['advisory_not_verified'] = sorted(set(f['obligation'] for f in out['failures'] if not f.get('canary')))
+        ncan_a = sum(1 for t in u.table if t[4] == 'canary')
+        out['canaries'] = ncan_a
+        out['canaries_failed_as_expected'] = len(set(f['obligation'] for f in out['failures'] if f.get('canary')))
+        if out['canaries_failed_as_expected'] != ncan_a and not out['infra']:
+            out['infra'].append('vacuity canary verified in the model-U unit %s' % u.name)
+        out['passes']['A']['errors'] = out['canaries_failed_as_expected']
+        out['failures'] = []
+        out['infra'] = [x for x in out['infra'] if 'canary' in x]
+        return out
     if retry and not out['infra']:
         keep = set(f['obligation'] for f in retry)
         fpath = path[:-3] + '_focus.rs'
@@ -208,7 +221,8 @@ def finish(prop, tier, seed, result, evid_path):
             n_dis += p['verified']
             cmds.append(p['cmd'])
             smt_ms += p['smt_ms'] or 0
-        nfun += len(r['functions'])
+        if not r.get('advisory'):
+            nfun += len(r['functions'])      # the model-U twin verifies the same functions again: not counted twice
     bounded = []
     if result['kani']:
         k = result['kani']
@@ -237,7 +251,7 @@ def finish(prop, tier, seed, result, evid_path):
             'contracts_assumed_from_other_units': sorted(set(a['anchor'] for r in result['units'] for a in r.get('assumed', []))),
             'functions': [dict(anchor=fn['anchor'], origin=fn['origin'], body=fn['body_sha256_16'], unit=r['unit'], model=r['model'])
                           for r in result['units'] for fn in r['functions']],
-            'per_unit': [{k: r[k] for k in ('unit', 'model', 'passes', 'canaries', 'canaries_failed_as_expected', 'n_lemmas', 'n_poly', 'trusted_prelude_items')} for r in result['units']],
+            'per_unit': [{k: r[k] for k in ('unit', 'model', 'passes', 'canaries', 'canaries_failed_as_expected', 'n_lemmas', 'n_poly', 'trusted_prelude_items', 'inlined_r18', 'advisory', 'advisory_not_verified') if k in r} for r in result['units']],
             'escalated_obligations': [dict(e, unit=r['unit']) for r in result['units'] for e in r.get('escalated', [])],
             'solver_time_s': round(smt_ms / 1000.0, 2),
             'kani': ({k: v for k, v in result['kani'].items() if k not in ('failures', 'infra', 'samples')} if result['kani'] else None),
